@@ -13,7 +13,9 @@ open Mido.Py
     `src_decode_message`, C01/C02) -/
 def parserExt : ReaderExt Msg :=
   { fromBytes := fun bs _ => decodeInts bs, mkSysex := fun _ _ => .error .Other, buildMeta := fun _ _ _ => .error .Other,
-    isSysex := fun m => match m with | .sysex _ => true | _ => false }
+    isSysex := fun m => match m with | .sysex _ => true | _ => false,
+    bin := fun m => .ok ((encode m).map Int.ofNat),
+    hex := fun m => .ok ((toHex (encode m)).map (fun c => (c.toNat : Int))) }
 
 def PState.toSrc (p : PState) : Src.Parser Msg := { messages := p.queue, _tok := p.tok.toSrc }
 
